@@ -369,7 +369,16 @@ def hostile_items(kind, rng, hosted):
                               dm.pdu_wn(15, a, 8 * q, q, [rng.randrange(256) for _ in range(q)]),
                               dm.pdu_rw(a, 1, a, q, 2 * q, [rng.randrange(256) for _ in range(2 * q)])])
             items.append(good(pdu + extra))
-        elif c < 0.9:
+        elif c < 0.88:
+            # checksum-valid write-multiple / read-write-multiple request whose announced quantity disagrees with its byte count and
+            # data (fewer or more registers / coil bytes than announced, byte count consistent with the data): refused, nothing written
+            a, q = rng.choice([0, 1, 5, 30, 37, 39]), rng.choice([1, 2, 3])
+            n = rng.choice([x for x in (1, 2, 3, 4) if x != q])
+            words = [rng.randrange(1, 256) for _ in range(2 * n)]
+            items.append(good(rng.choice([dm.pdu_rw(a, 1, a, q, 2 * n, words), dm.pdu_rw(0, 2, a, q, 2 * n, words),
+                                          dm.pdu_wn(16, a, q, 2 * n, words),
+                                          dm.pdu_wn(15, a, 8 * q, n, words[:n])])))
+        elif c < 0.93:
             # checksum-valid frame whose data-access PDU is internally inconsistent or out of limits (byte count vs quantity,
             # quantity beyond the limit, bad coil word, address beyond the table): must be refused without touching the store
             import dmcheck
